@@ -103,4 +103,21 @@ CLAIMS = {
              "after arbitrary valid streams are not decided.",
         technique="wake-up/arm agreement of asyncio primitives; who-may-call; CFG guards; slice/length constant agreement; generated CRC table oracle",
         ref="4/C14"),
+    "C07": dict(
+        text="Static analysis of structural necessary conditions of the mode lifecycle: start/_started and stop/_stopped "
+             "post will_start, starting(queue), started and will_stop, stopping(queue), stopped in that order with the "
+             "chained callbacks; a start is accepted only when neither active nor starting, the flag is set before the "
+             "first event and no exit lies between setting it and posting the starting event; _started/_stopped flip "
+             "the flags on every path; inside Mode every event handler goes through add_mode_event_handler (key "
+             "recorded) except the tabled permanent start-event handlers; every clean-up step (switch handlers, "
+             "delays, stop methods, mode handlers, mode devices, stop callbacks) lies on the stop chain and empties its "
+             "container after visiting all entries; every ConfigPlayer subclass that stores per-context state "
+             "overrides clear_context, resets that state and uses the same context key; mode_stop unloads handlers, "
+             "cancels subscriptions and clears the mode's context; every event/switch handler a mode device registers "
+             "permanently while being loaded is removed (by stored keys or by callback) when the mode unloads it; "
+             "enable/disable idempotence guards read the state they write; active_modes is mutated only by "
+             "set_mode_state and sorted by (priority, name) descending after every change. Registry equality for "
+             "arbitrary user mode code and overlapping requests beyond the flag guards are not decided.",
+        technique="event-chain extraction; CFG must-pass typestate; who-may-write; sibling agreement over ConfigPlayer/ModeDevice subclasses",
+        ref="4/C07"),
 }
